@@ -3,6 +3,7 @@
 For the functions in which a property's rules placed obligations, a scratch copy of static_frame/core is
 rewritten with one of:
   rename   alpha-rename one local variable of one function (consistently, nested closures included);
+  renameall  alpha-rename every local variable of one function at once;
   kwsort   reverse the keyword-argument order of every call in one function (keywords only; evaluation
            order of side-effect-free argument expressions is immaterial for the analysed code);
   pass     insert a `pass` statement at the top of one function body.
@@ -99,6 +100,13 @@ def _apply(kind: str, src: str, qual: str, rng: random.Random) -> tp.Optional[tp
         new = old + '_rn'
         _Rename(old, new).visit(fn)
         what = f'{old} -> {new}'
+    elif kind == 'renameall':
+        names = _locals_of(fn)
+        if not names:
+            return None
+        for old in names:
+            _Rename(old, old + '_rn').visit(fn)
+        what = f'{len(names)} locals'
     elif kind == 'kwsort':
         n = 0
         for c in ast.walk(fn):
@@ -161,7 +169,7 @@ def run_for_property(prop: str, repo: str, seed: int = 0, budget: int = 48, jobs
     rng.shuffle(cands)
     work = []
     for i, q in enumerate(cands):
-        for kind in ('rename', 'kwsort', 'pass'):
+        for kind in ('rename', 'renameall', 'kwsort', 'pass'):
             work.append((prop, repo, q, kind, rng.randrange(1 << 30), frozenset(base)))
     rng.shuffle(work)
     work = work[:budget]
